@@ -11,7 +11,9 @@ decoded from returned values. Oracle (from the property text):
   monotone     for fa < fb < fc every bound at fb lies between its values at fa and fc   (triples (0,f1,f2) and (f1,f2,1))
   compounding  an instance driven through a factor sequence ending in f has the signature of a fresh instance scaled once by f
 for every discovered class reporting supports_scale_strength(), for harness-built compositions of them and for
-MagnitudeSampler. Scheduled transform: under simulated round-robin workers and under a real DataLoader
+MagnitudeSampler. Factor histories over object graphs (members scaled directly between composition-level calls, members
+pre-scaled before being wrapped, one member shared by two compositions, inner compositions scaled on their own): after the
+last call on an object that reaches a member, the member has the signature of a fresh instance scaled once by that factor. Scheduled transform: under simulated round-robin workers and under a real DataLoader
 ctx["KDScheduledTransform.strength"] of every sample of global batch b equals schedule.get_value(b, n_batches) (reference
 computed on an independent schedule object / decodable custom value lists) and the call is indistinguishable from the
 call of a fresh pipeline whose wrapped transform was scaled once by that value.
@@ -34,7 +36,8 @@ LEVEL = "exploration"
 RULE = ("per discovered class supporting scale_strength: constructor arguments drawn inside the documented domain (p in {0,1,..}, "
         "scalar/tuple ranges, magnitude samplers const/uniform/normal), PIL or tensor workload, factors f1<f2 in (0,1) and a factor "
         "sequence (length 1..8, with repeats/0/1) ending in one of {0,f1,f2,1,other}; harness-built KDComposeTransform nestings of 2..4 "
-        "members (+ non-scalable / plain members); library presets; MagnitudeSampler; scheduled pipelines (4 wrap shapes x schedule "
+        "members (+ non-scalable / plain members); factor histories (3..9 calls, factors from a small pool so that equal factors recur) over graphs "
+        "of 3 members and 1..2 (shared-member / nested) compositions; library presets; MagnitudeSampler; scheduled pipelines (4 wrap shapes x schedule "
         "kinds x worker counts 0..7 x batch sizes 1..8 x 1..16 batches x updates/samples/epochs init) simulated and on real DataLoaders "
         "(1..4 workers). A case is distinct by its full spec; non-trivial = the subject has at least one scalable range")
 ASSUMPTIONS = [
@@ -49,7 +52,8 @@ ASSUMPTIONS = [
     "scheduled: full batches only; with samples % batch_size != 0 only the full batches are judged; one pass over the loader (worker re-creation between epochs is outside the claim); torch assigns batch b to worker b % num_workers",
 ]
 MONITORS = ["restore_checked", "collapse_checked", "identity_checked", "monotone_checked", "compounding_checked",
-            "gate_thresholds_recovered", "sched_sim_samples_checked", "sched_signature_checked", "sched_loader_samples_checked"]
+            "gate_thresholds_recovered", "sched_sim_samples_checked", "sched_signature_checked", "sched_loader_samples_checked",
+            "history_members_checked"]
 
 TOL = 1e-9
 TOL_SAME = 1e-12
@@ -188,6 +192,45 @@ def _gen_sched(rng, recipes, loader):
     return spec
 
 
+GRAPH_SCENARIOS = ["direct", "prescaled", "shared", "inner", "random"]
+
+
+def _gen_graph(rng, recipes, scenario):
+    """a small object graph (members m0..m2, compositions c0, c1 given by their children) and a history of
+    (target, factor) calls; compositions are constructed when they are first targeted"""
+    kind = rng.choice(["tensor", "pil"])
+    members = [_member(rng, recipes, kind, prefix=f"m{i}") for i in range(3)]
+    pool = rng.sample([0.0, 1.0, 0.25, 0.5, 0.75, 0.1, 0.9, round(rng.uniform(0.01, 0.99), 3)], 4)
+    f, g, h = pool[0], pool[1], pool[2]
+    if scenario == "direct":
+        comps = [["m0", "m1", "m2"]]
+        touched = rng.sample(["m0", "m1", "m2"], rng.randint(1, 3))
+        hist = ([] if rng.random() < 0.25 else [["c0", f]])
+        if not hist:
+            f = 1.0          # the composition was never told anything: its members are as constructed
+        hist += [[m, rng.choice([x for x in pool + [0.0, 1.0] if x != f])] for m in touched] + [["c0", f]]
+    elif scenario == "prescaled":
+        comps = [["m0", "m1", "m2"]] if rng.random() < 0.6 else [["m1", "m2"], ["m0", "c0"]]
+        top = f"c{len(comps) - 1}"
+        hist = [[m, rng.choice([0.0, g, h])] for m in rng.sample(["m0", "m1", "m2"], rng.randint(1, 3))] + [[top, rng.choice([1.0, 1.0, f])]]
+    elif scenario == "shared":
+        comps = [["m0", "m1"], ["m1", "m2"]] if rng.random() < 0.5 else [["m0", "m1", "m2"], ["m2", "m1"]]
+        hist = [["c0", f], ["c1", g], ["c0", f]]
+        if rng.random() < 0.4:
+            hist.append(["c1", g])
+    elif scenario == "inner":
+        comps = [["m1", "m2"], ["m0", "c0"]]
+        hist = [["c1", f], ["c0", g], ["c1", f]]
+        if rng.random() < 0.4:
+            hist.append(["c0", g])
+    else:
+        comps = rng.choice([[["m0", "m1", "m2"]], [["m0", "m1"], ["m1", "m2"]], [["m1", "m2"], ["m0", "c0"]], [["m0", "m1"], ["c0", "m2", "m1"]]])
+        targets = ["m0", "m1", "m2"] + [f"c{i}" for i in range(len(comps))] * 2
+        hist = [[rng.choice(targets), rng.choice(pool[:3])] for _ in range(rng.randint(3, 9))]
+    return {"kind": "graph", "scenario": scenario, "members": members, "comps": comps, "history": hist, "input": _input(rng, kind),
+            "np_seed": rng.randrange(2 ** 31)}
+
+
 def gen_cases(run):
     rng, recipes = run.rng, _ST["recipes"]
     singles = [n for n, r in recipes.items() if not isinstance(r, (P.ComposeRecipe, P.CommonRecipe))]
@@ -198,6 +241,7 @@ def gen_cases(run):
     n_common = run.n(len(commons), 30 * max(1, len(commons)))
     n_sim = run.n(60, 2400)
     n_loader = run.n(5, 64)
+    n_graph = run.n(30, 1600)
     plan = []
     for i in range(n_single):
         plan.append(("single", singles[i % len(singles)] if singles else None))
@@ -205,6 +249,7 @@ def gen_cases(run):
     for i in range(n_common):
         plan.append(("common", commons[i % len(commons)] if commons else None))
     plan += [("sched_sim", None)] * n_sim + [("sched_loader", None)] * n_loader
+    plan += [("graph", GRAPH_SCENARIOS[i % len(GRAPH_SCENARIOS)]) for i in range(n_graph)]
     # interleave so that a time-limited run still sees every kind
     order = list(range(len(plan)))
     rng.shuffle(order)
@@ -226,6 +271,8 @@ def gen_cases(run):
             yield spec
         elif kind == "sched_sim" and singles:
             yield _gen_sched(rng, recipes, loader=False)
+        elif kind == "graph" and singles:
+            yield _gen_graph(rng, recipes, name)
         elif kind == "sched_loader" and singles:
             yield _gen_sched(rng, recipes, loader=True)
 
@@ -720,9 +767,87 @@ def _run_sched_loader(run, spec):
                 return
 
 
+# ================================================================================================ factor histories over object graphs
+def _reach(comps, name):
+    if name.startswith("m"):
+        return {name}
+    out = set()
+    for ch in comps[int(name[1:])]:
+        out |= _reach(comps, ch)
+    return out
+
+
+def _run_graph(run, spec):
+    from kappadata.transforms.base.kd_compose_transform import KDComposeTransform
+    x = P.make_input(spec["input"])
+    kind = spec["input"]["kind"]
+    subs = {f"m{i}": _member_subject(m, x, kind) for i, m in enumerate(spec["members"])}
+    comps = spec["comps"]
+    np.random.seed(spec["np_seed"] % (2 ** 32))
+    objs = {}
+    for name, sub in subs.items():
+        ok, t = call_real(run, sub.build, crash_key=f"{sub.family}:ctor-crash", what=f"{sub.label}: construction")
+        if not ok:
+            return
+        objs[name] = t
+
+    def get(name):
+        if name not in objs:   # compositions are constructed when they are first needed (members may be pre-scaled by then)
+            objs[name] = KDComposeTransform([get(ch) for ch in comps[int(name[1:])]])
+        return objs[name]
+
+    run.cover("graph", spec["scenario"], len(comps), kind)
+    last, reached = {}, {m: [] for m in subs}      # model: the factor of the last call on an object that reaches the member
+    for i, (target, f) in enumerate(spec["history"]):
+        ok, _ = call_real(run, lambda: get(target).scale_strength(f), crash_key="compose:scale-crash",
+                          what=f"history {spec['history']} over compositions {comps}: call {i} ({target}.scale_strength({f}))")
+        if not ok:
+            return
+        for m in _reach(comps, target):
+            last[m] = f
+            reached[m].append(f)
+    for name, sub in subs.items():
+        # observability precondition (see evaluate): the member's signature must not depend on hidden generators
+        cap = _Capture(run, quiet=True)
+        a, b = _fresh(cap, sub, None), _fresh(cap, sub, None)
+        sa = None if a is None else _sig(cap, sub, a, gates=False)
+        sb = None if b is None else _sig(cap, sub, b, gates=False)
+        tr = _fresh(cap, sub, last.get(name))
+        sref = None if tr is None else _sig(cap, sub, tr)
+        if sa is None or sb is None or sref is None or R.sig_diff(sa, sb, 0.0):
+            run.count("subjects_not_judged")
+            continue     # the member cannot be driven on its own (its own cases report that)
+        sgot = _sig(cap, sub, objs[name])
+        if sgot is None:
+            run.count("subjects_not_judged")
+            continue
+        run.count("history_members_checked")
+        diffs = R.sig_diff(sref, sgot, TOL_SAME)
+        if not diffs:
+            continue
+        # is the member itself history dependent (its own mechanism) or did the composition not pass the factor on?
+        key = "compose:history"
+        tm = _fresh(cap, sub, None)
+        if tm is not None:
+            try:
+                for f in reached[name]:
+                    tm.scale_strength(f)
+                sm = _sig(cap, sub, tm)
+                if sm is not None and R.sig_diff(sref, sm, TOL_SAME):
+                    key = f"{sub.family}:compounding"
+            except Exception:
+                pass
+        want = f"a fresh instance scaled once by {last[name]}" if name in last else "a fresh instance as constructed (no call reached it)"
+        run.violation(key, f"object graph {comps} over members {[s_.label for s_ in subs.values()]}, history {spec['history']} [{spec['scenario']}]: "
+                      f"member {name} ({sub.label}) does not have the signature of {want}: " + "; ".join(diffs[:4]))
+        return
+
+
 # ================================================================================================ run_case
 def run_case(run, spec):
     k = spec["kind"]
+    if k == "graph":
+        return _run_graph(run, spec)
     if k in ("sched_sim", "sched_loader"):
         return _run_sched_sim(run, spec) if k == "sched_sim" else _run_sched_loader(run, spec)
     x = P.make_input(spec["input"])
